@@ -235,7 +235,7 @@ def special_float(rng):
                        rng.uniform(-1e3, 1e3), rng.uniform(-1, 1) * 10.0 ** rng.randint(-300, 300), float(rng.randint(-99, 99))])
 
 
-def generate(rng, tier):
+def _generate(rng, tier):
     # (b) exhaustive small alphabet, each prefixed by a valid start so that deeper states are reached as well
     maxlen = 3 if tier == 'quick' else 4
     for n in range(0, maxlen + 1):
@@ -274,3 +274,35 @@ def generate(rng, tier):
     for s in ['m1 1 +2 3', 'M0 0Q1 1 2 0S4 1 5 0', 'M0 0C1 1 2 1 3 0T6 0', 'M0 0L1 0ZT2 2', 'M1 1 Z 2 2', 'M 100 100 A 25 25 0 1 0 -25 25 z', 'M3.5 8a.5.5 0 01.5-.5h8a.5.5 0 010 1H4a.5.5 0 01-.5-.5z',
               'L1 1', 'M', 'M1', 'M1,', 'M1 2 X', 'M1 2 L', 'M1 2 L3', 'M1e 2', 'M1e+ 2', 'M. 2', 'M-. 2', 'M1 2 é', '', '   ', ',', 'M1 2,', 'M1 2 , 3 4', 'z', 'Z1 2']:
         yield parse_corr(hx(s), 'hand-picked')
+
+
+def svg_text_of(line):
+    toks = line.split()
+    if toks and toks[0] == 'svg.parse' and len(toks) > 1 and toks[1].startswith('x'):
+        try:
+            return bytes.fromhex(toks[1][1:]).decode('utf-8', 'replace')
+        except ValueError:
+            return None
+    return None
+
+
+def arc_with_huge_number(text):
+    """an arc command together with a numeral beyond the supported coordinate range (|x| > 1e15): Arc::append_iter would be asked for ~(r/0.1)^(1/6)
+    pieces per radian with r ~ the coordinate (1e50 -> 1e8 pieces, gigabytes): outside the domain, never generated (DESIGN.md 11.4)"""
+    import re
+    if text is None or not re.search('[aA]', text):
+        return False
+    for m in re.finditer(r'[-+]?(?:\d+\.?\d*|\.\d+)(?:[eE][-+]?\d+)?', text):
+        try:
+            if abs(float(m.group(0))) > 1e15:
+                return True
+        except (ValueError, OverflowError):
+            return True
+    return False
+
+
+def generate(rng, tier):
+    for c in _generate(rng, tier):
+        if any(arc_with_huge_number(svg_text_of(l)) for l in c.lines):
+            continue
+        yield c
